@@ -93,5 +93,9 @@ let lzd (toks : string list) : string =
 let () = register "lz10c" lz10c
 let () = register "lz13c" lz13c
 let () = register "lzd" lzd
+(* lz10p / lz13p <flag> B<prelude> B<input>: the implementation compresses the prelude first; the model is a function of
+   its argument, so it is lz10c / lz13c on <input> *)
+let () = register "lz10p" (fun toks -> match toks with [flag; _; b] -> lz10c [flag; b] | _ -> failwith "lz10p: bad case")
+let () = register "lz13p" (fun toks -> match toks with [flag; _; b] -> lz13c [flag; b] | _ -> failwith "lz13p: bad case")
 let () = register "lz10f" lz10f
 let () = register "lz13f" lz13f
